@@ -22,6 +22,8 @@ package binpatch
 import (
 	"os"
 	"syscall"
+
+	"golang.org/x/sys/unix"
 )
 
 func hasLinks(info os.FileInfo) bool {
@@ -30,4 +32,13 @@ func hasLinks(info os.FileInfo) bool {
 		return false
 	}
 	return stat.Nlink != 1
+}
+
+// canWrite reports whether the handle was opened for writing
+func canWrite(f *os.File) bool {
+	flags, err := unix.FcntlInt(f.Fd(), unix.F_GETFL, 0)
+	if err != nil {
+		return false
+	}
+	return flags&unix.O_ACCMODE != unix.O_RDONLY
 }
